@@ -28,6 +28,7 @@ type Program struct {
 	storedG  map[*ssa.Global]bool // globals stored to outside init
 	scannedG map[*ssa.Package]bool
 	module   string
+	dispatch map[*ssa.Global]*dispatchTable
 }
 
 func loadProgram(dir string, patterns []string, overlay map[string][]byte) (*Program, error) {
